@@ -172,6 +172,7 @@ class C08Session(Session):
     def _call(self, world, op, data, env_kind=None):
         """-> (outcome, encoded result or None, crash line)"""
         had_pandas = None
+        faults.ORDER[0] = op.get("order", 0)
         try:
             with warnings.catch_warnings():
                 warnings.simplefilter("error" if env_kind == "warn_error" else "ignore")
@@ -644,6 +645,8 @@ class Sim:
         if len(op.get("observers", [])) > 1 and op.get("pixel_agg") is None and via != "dict" \
                 and rng.random() < 0.7:
             op["pixel_agg"] = rng.choice(AGG_GOOD)
+        if rng.random() < 0.5:
+            op["order"] = rng.randrange(1, 1 << 20)  # the simulator decides the tiled-set iteration order
         op["enumerate"] = {"max": cfg["max_variants"], "hook_flavours": cfg["hook_flavours"],
                            "cb_modes": cfg["cb_modes"], "env": cfg["env"], "sel_seed": rng.randrange(1 << 30)}
         return op
@@ -678,6 +681,8 @@ class Sim:
                 yield dict(op, **{k: simple})
         if "extra_kw" in op:
             yield {k: v for k, v in op.items() if k != "extra_kw"}
+        if op.get("order"):
+            yield {k: v for k, v in op.items() if k != "order"}
         for key in ("sources", "observers"):
             lst = op.get(key, [])
             if len(lst) > 1:
